@@ -218,7 +218,7 @@ theorem ps_step (hc : s.calls = f :: rest) (hf : findCode code f.fn = some c) (h
       · rw [declareSt_scopes]
         exact hdecl
   case exprS sp e =>
-    rcases okS_exprS_inv sp e hs with ⟨asp, op, isp, ity, name, isFn, isSing, r, rfl, hr, hlog⟩ |
+    rcases okS_exprS_inv sp e hs with ⟨asp, op, isp, ity, name, isFn, r, rfl, hr, hlog⟩ |
       ⟨isp, ty, cnd, t, eb, rfl, hty, hcnd, ht, heb⟩ | ⟨isp, ty, cnd, t, rfl, hty, hcnd, ht⟩
     ·
       simp only [Frag.wsS] at hws
